@@ -667,3 +667,88 @@ pub fn c06(ctx: &mut Ctx) {
     }
     ctx.flush_model("C06-marlin");
 }
+
+/// C08 (state arithmetic): `marlin_pc::Randomness += (f, &other)` and `+= &other` against the model's
+/// `Rand.addScaled`, covering every combination of present/absent shifted parts in accumulator and operand,
+/// and the scalar law (a·s) + (b·s) = (a+b)·s on the implementation.
+pub fn c08_rand_arith(ctx: &mut Ctx) {
+    use ark_poly_commit::kzg10;
+    use ark_poly_commit::PCCommitmentState;
+    let n = ctx.n(48, 400);
+    fn kr(c: Vec<Fr>) -> kzg10::Randomness<Fr, UniPoly> {
+        let mut r = kzg10::Randomness::<Fr, UniPoly>::empty();
+        r.blinding_polynomial = UniPoly::from_coefficients_vec(c);
+        r
+    }
+    fn norm(c: &[Fr]) -> Vec<Fr> {
+        let mut v = c.to_vec();
+        while v.last().map(|x| x.is_zero()).unwrap_or(false) {
+            v.pop();
+        }
+        v
+    }
+    for i in 0..n {
+        let id = format!("C08/marlin-rand/{}", i);
+        if !ctx.selected(&id) {
+            continue;
+        }
+        let mut rng = rng_for(ctx.seed, "C08/marlin-rand", i as u64);
+        let rv = |rng: &mut Rng, allow_empty: bool| -> Vec<Fr> {
+            let l = if allow_empty { range(rng, 0, 5) } else { range(rng, 1, 5) };
+            (0..l).map(|_| Fr::rand(rng)).collect()
+        };
+        // the four shapes, cycled so each is hit equally often: (acc shifted?, operand shifted?)
+        let (acc_s, op_s) = [(false, true), (true, true), (true, false), (false, false)][i % 4];
+        let a_rand = rv(&mut rng, true);
+        let a_sh = if acc_s { Some(rv(&mut rng, true)) } else { None };
+        let b_rand = rv(&mut rng, false);
+        let b_sh = if op_s { Some(rv(&mut rng, false)) } else { None };
+        let f = match range(&mut rng, 0, 5) {
+            0 => Fr::from(1u64),
+            1 => Fr::zero(),
+            2 => -Fr::from(1u64),
+            _ => Fr::rand(&mut rng),
+        };
+        let mk = |r: &Vec<Fr>, s: &Option<Vec<Fr>>| Rand { rand: kr(r.clone()), shifted_rand: s.clone().map(kr) };
+        let a = mk(&a_rand, &a_sh);
+        let b = mk(&b_rand, &b_sh);
+        let mut acc = a.clone();
+        acc += (f, &b);
+        let req = crate::wire::Req::new("marlin.rand_add_scaled")
+            .arg("a", crate::wire::fes(&a_rand))
+            .arg("as", crate::wire::opt(a_sh.as_ref().map(|v| crate::wire::fes(v))))
+            .arg("b", crate::wire::fes(&b_rand))
+            .arg("bs", crate::wire::opt(b_sh.as_ref().map(|v| crate::wire::fes(v))))
+            .arg("f", crate::wire::fe(&f));
+        ctx.ses.ask(&id, req, ImplOutcome::Ok(vec![
+            // compared as polynomials: ark-poly leaves `0·r` un-normalised ([0,…,0]); the model answers in normal form
+            ("rand".into(), Expect::Fes(norm(&acc.rand.blinding_polynomial.coeffs))),
+            ("srand".into(), Expect::Raw(crate::wire::opt(acc.shifted_rand.as_ref().map(|r| crate::wire::fes(&norm(&r.blinding_polynomial.coeffs)))))),
+        ]));
+        let key0 = |r: &Rand| (norm(&r.rand.blinding_polynomial.coeffs), r.shifted_rand.as_ref().map(|x| norm(&x.blinding_polynomial.coeffs)));
+        // unscaled `+= &other` must agree with f = 1
+        if f == Fr::from(1u64) {
+            let mut acc1 = a.clone();
+            acc1 += &b;
+            if key0(&acc1) != key0(&acc) {
+                ctx.rep.expect_fail(&id, "marlin/rand-add-unscaled-differs", "`+= &other` differs from `+= (1, &other)`",
+                    format!("# scheme: marlin\n# case: {}\n# seed: {}\n# rerun: .build/cargo/debug/pcv-harness C08 --seed {} --only {}\n", id, ctx.seed, ctx.seed, id));
+            }
+        }
+        // scalar law on the implementation, starting from the empty state
+        let g = Fr::rand(&mut rng);
+        let mut l1 = Rand::empty();
+        l1 += (f, &b);
+        l1 += (g, &b);
+        let mut l2 = Rand::empty();
+        l2 += (f + g, &b);
+        let key = |r: &Rand| (norm(&r.rand.blinding_polynomial.coeffs), r.shifted_rand.as_ref().map(|x| norm(&x.blinding_polynomial.coeffs)));
+        if key(&l1) != key(&l2) {
+            ctx.rep.expect_fail(&id, "marlin/rand-scalar-law", "(f·s) + (g·s) != (f+g)·s for commitment states",
+                format!("# scheme: marlin\n# case: {}\n# seed: {}\n# f={} g={} rand={} shifted={:?}\n# rerun: .build/cargo/debug/pcv-harness C08 --seed {} --only {}\n",
+                    id, ctx.seed, crate::wire::fe(&f), crate::wire::fe(&g), crate::wire::fes(&b_rand), b_sh.as_ref().map(|v| crate::wire::fes(v)), ctx.seed, id));
+        }
+        ctx.rep.count(&format!("marlin-rand/acc-shifted={}/op-shifted={}", acc_s, op_s));
+        ctx.rep.case(&format!("marlin-rand acc_s={} op_s={}", acc_s, op_s), None);
+    }
+}
